@@ -8,8 +8,44 @@ import (
 	"verifsim/spec"
 )
 
+// genBacklogSpec: the server application has stopped calling Accept; clients keep opening sessions
+// until every backlog between the network and Accept is full (64 + 1 + 64 places) and the event
+// loop is parked handing over one more; then the server is stopped. Stop must still return.
+func genBacklogSpec(seed uint64, r *simnet.Rng) *spec.RunSpec {
+	tr := []string{"tcp", "udp"}[r.Intn(2)]
+	s := &spec.RunSpec{Property: "C15", Scenario: "close", Seed: seed, VirtualCapS: 1500, Profile: "c15-" + tr + "-accept-backlog-full-then-stop"}
+	s.StartOffsetUs = genStartOffset(r)
+	s.Server = spec.Server{Users: genUsers(r, 1), IP: "10.0.0.1", NoAccept: true, RawMux: r.Bool(0.5)}
+	if tr == "tcp" {
+		s.Server.TCPPort = 5500
+	} else {
+		s.Server.UDPPort = 6500
+		s.Server.MTU = 1400
+	}
+	c := spec.Client{IP: "10.0.1.1", User: 0, Transport: tr, Multiplex: r.Pick(0, 3), NoWait: !s.Server.RawMux}
+	if tr == "udp" {
+		c.MTU = 1400
+	}
+	n := r.Pick(60, 128, 131, 140, 170)
+	cs := &spec.CloseSpec{}
+	for i := 0; i < n; i++ {
+		c.Sessions = append(c.Sessions, spec.Session{ID: i, StartUs: int64(i) * 700, CloseMode: "none"})
+		cs.Actors = append(cs.Actors, spec.Actor{Client: 0, Session: i, Side: "client", Role: "writer", Ops: []spec.AOp{{Op: "write", N: r.Pick(1, 100)}}})
+	}
+	s.Clients = []spec.Client{c}
+	s.Net = spec.Net{LatencyUs: int64(r.Pick(200, 2000))}
+	stopAt := int64(n)*700 + int64(r.Pick(500000, 3000000, 8000000))
+	cs.Events = []spec.Event{{AtUs: stopAt, Kind: "server-stop"}}
+	cs.HorizonUs = stopAt + 40000000
+	s.Close = cs
+	return s
+}
+
 func genCloseSpec(seed uint64, tier string) *spec.RunSpec {
 	r := simnet.NewRng(seed, "c15")
+	if r.Bool(0.06) {
+		return genBacklogSpec(seed, r)
+	}
 	tr := []string{"tcp", "udp"}[r.Intn(2)]
 	s := &spec.RunSpec{Property: "C15", Scenario: "close", Seed: seed, VirtualCapS: 1500}
 	s.StartOffsetUs = genStartOffset(r)
